@@ -299,9 +299,13 @@ package bgp
 //@   modifies nothing
 //@   ensures result != nil && fresh(result)
 //@ func GetRouteDistinguisher
+//@   tag C05 C04
 //@   requires len(data) >= 8
 //@   modifies nothing
 //@   ensures result != nil
+// from C04 (decode then encode gives the octets back): an RD of a type the speaker does not know keeps its six
+// value octets (in memory of its own, not the receive buffer)
+//@   ensures typeOf(result) == (*RouteDistinguisherUnknown) ==> len(result.(*RouteDistinguisherUnknown).Value) == 6 && (forall k int :: 0 <= k && k < 6 ==> result.(*RouteDistinguisherUnknown).Value[k] == data[2+k])
 
 //@ func (*LabeledIPAddrPrefix).decodeFromBytes
 //@   modifies l.*
@@ -899,6 +903,25 @@ func verifLenIsHeaderPlusLength(p *PathAttribute) bool {
 //@   requires p != nil
 //@   claims at-call
 //@   at-call append(buf, uint8(nexthoplen)) requires nexthoplen == mpNHLen(safi, isNexthopIPv6 ? 16*len(nexthopAddrs) : 4*len(nexthopAddrs), len(nexthopAddrs))
+
+// the length in the header that is written is the length of what is written (and has passed the size check of
+// the session, C11), whatever Header.Len held before - a parsed message carries the length it was received with
+//@ props C04 C11
+//@ func (*BGPMessage).Serialize
+//@   requires msg != nil
+//@   claims at-call
+//@   at-call msg.Header.Serialize( requires int(msg.Header.Len) == BGP_HEADER_LENGTH + len(b) && called(IsExtendedMessageSerialization)
+
+// EVPN I-PMSI route (type 9): what the encoder writes is what Len() announces - RD (8) and Ethernet tag (4), then the
+// extended community directly after them - and the decoder knows the route type its own encoder emits
+//@ props C04
+//@ func (*EVPNIPMSIRoute).Serialize
+//@   requires er != nil
+//@   claims at-call
+//@   at-call append(buf, ec...) requires len(buf) == 12
+//@ func getEVPNRouteType
+//@   modifies nothing
+//@   ensures t == EVPN_I_PMSI ==> result1 == nil && typeOf(result0) == (*EVPNIPMSIRoute)
 
 //@ props C12
 // from C12: which Cease subcodes end the session hard (RFC 8538): prefix limit, admin shutdown, peer
